@@ -38,6 +38,7 @@ struct Act {
 };
 struct Scenario {
     bool strict = false, ignoreOtherCalls = false, readReturn = false, outParam = false;
+    bool nullObject = false; // object o2 is the NULL pointer (a legal object to bind an expectation to): objects are then not interchangeable
     int extraOut = 0;      // 1 / 2: every actual call also passes an output parameter "x" no expectation names, before / after "o"
                            // 3 / 4: (no "o") every actual call passes, after its input parameters, an output parameter named "x" (a name
                            //        nothing declares) / named "p" (which expectations may declare as an INPUT parameter): nothing
@@ -73,6 +74,7 @@ inline std::string render(const Scenario& s) {
     }
     if (s.readReturn) o += "[return values read] ";
     if (s.outParam) o += "[output parameter o] ";
+    if (s.nullObject) o += "[o2 is the NULL pointer] ";
     if (s.extraOut >= 3) o += s.extraOut == 3 ? "[unexpected output parameter x passed last] " : "[output parameter named p passed last] ";
     else if (s.extraOut) o += s.extraOut == 1 ? "[unnamed output parameter x passed before o] " : "[unnamed output parameter x passed after o] ";
     return o;
@@ -119,7 +121,7 @@ inline void decode_tuple(long idx, long n, std::vector<int>& out) {
 inline bool canonical(const Scenario& s) {
     int fn_seen = 0, pn_seen = 0, val_seen[2] = {0, 0}, obj_seen = 0;
     auto see_fn = [&](int fn) { if (fn == fn_seen) fn_seen++; else if (fn > fn_seen) return false; return true; };
-    auto see_obj = [&](int o) { if (!o) return true; if (o == obj_seen + 1) obj_seen++; else if (o > obj_seen + 1) return false; return true; };
+    auto see_obj = [&](int o) { if (!o || s.nullObject) return true; if (o == obj_seen + 1) obj_seen++; else if (o > obj_seen + 1) return false; return true; };
     auto see_p = [&](int n, int v) {
         if (n == pn_seen) pn_seen++; else if (n > pn_seen) return false;
         if (v == val_seen[n] + 1) val_seen[n]++; else if (v > val_seen[n] + 1) return false;
